@@ -32,6 +32,11 @@ M = [
  ('C07-a', 'C07', 'core/wl/protocol.py', '            if entry.value & arg_value:', '            if entry.value == arg_value:', 1),
  ('C07-b', 'C07', 'core/wl/protocol.py', 'if not existing or existing.version < interface.version:', 'if not existing or existing.version > interface.version:', 1),
  ('C07-c', 'C07', 'core/wl/protocol.py', "    enum_interface_name = enum_name_parts[-2]", "    enum_interface_name = enum_name_parts[0]", 1),
+ ('C13-a', 'C13', 'main.py', '            exit(returncode)', '            exit(0)', 1),
+ ('C13-b', 'C13', 'backends/libwayland_debug_output/runner.py', "        env['WAYLAND_DEBUG'] = '1'\n", "", 1),
+ ('C13-c', 'C13', 'backends/libwayland_debug_output/runner.py', "            stderr=self.stderr_fd,\n", "            stderr=self.stderr_fd,\n            stdout=self.stderr_fd,\n", 1),
+ ('C18-a', 'C18', 'main.py', "        input_file = open(file_path, errors='replace')", "        input_file = open(file_path)", 1),
+ ('C18-b', 'C18', 'backends/libwayland_debug_output/parse.py', '            except RuntimeError as e:\n                self.out.unprocessed(str(e))', '            except ValueError as e:\n                self.out.unprocessed(str(e))', 1),
  ('C16-a', 'C16', 'frontends/tui/controller.py', 'if delta > 1.0:', 'if delta >= 1.0:', 1),
  ('C16-b', 'C16', 'frontends/tui/controller.py', "                ')')\n            self.last_shown_timestamp = None", "                ')')", 1),
  ('C06-a', 'C06', 'frontends/tui/controller.py', 'if self.current_connection is None or connection == self.current_connection:', 'if True:', 1),
